@@ -185,4 +185,16 @@ CLAIMS = {
         'note': 'Trusted: clang 14 CFG, tools/grfacts, rules/c14.py, rules/dom.py.  Buffer ownership / release is C16 TABLETS.',
         'technique': 'dominance-with-strength rules over CFG facts (guards of every copy and read) + path rule on the output budget',
     },
+    'C15': {
+        'text': 'Numeric equality with the design-unit run times ppm/upem is a run-time fact and NOT decided.  Decided: (1) font independence of '
+                'everything but final positions -- every call site of positionSlots / Slot::finalise passes a literal null font or forwards the '
+                'caller\'s own parameter along the final-positioning chain, Segment::finalise is called once by gr_make_seg, and no method of '
+                'the passes, the VM or the colliders has a Font parameter; (2) Font::scale() is read only by the five tabled functions; '
+                '(3) a flow-sensitive dimension analysis (design units vs pixels, the scale converts) of the float arithmetic of those five '
+                'functions on every font != NULL path: no sum, difference, comparison or store mixes the two units, nothing is scaled twice '
+                'or divided by the scale in the wrong direction -- the structural condition for linear scaling.',
+        'note': 'Trusted: clang 14 CFG, tools/grfacts, rules/c15.py, rules/units.py (unit tables keyed by resolved fields / getters, unknown '
+                'units are compatible with everything so only definite mixes are reported; at most 4000 paths per function).',
+        'technique': 'argument-provenance rule + who-may-call + flow-sensitive dimension (unit) analysis over CFG paths',
+    },
 }
